@@ -6820,6 +6820,10 @@ def debug_dump_ast(ast, out_name="ast", into=None, coming_from=None, make_id=Non
             g.render(out_name, format=ProgramData.option(ProgramOption.DEBUG_GRAPH_DUMP_FORMAT), cleanup=True)
         return
 
+    if ast is None:
+        # a body made of actions only (compiling it is what diagnoses that)
+        return coming_from
+
     def label_of(x):
         base = type(x).__name__
         if type(x).__repr__ != object.__repr__:
@@ -7194,7 +7198,8 @@ def main(): # pragma: no cover
             print("Parse error:", str(e), file=sys.stderr)
             exit(4)
 
-    if ProgramData.dump(DebugDumpable.AST): debug_dump_ast(pctx.ast, ProgramData.dump_prefix + ".ast")
+    # (a parser made of actions only has no tree to draw; compiling it says so)
+    if ProgramData.dump(DebugDumpable.AST) and pctx.ast is not None: debug_dump_ast(pctx.ast, ProgramData.dump_prefix + ".ast")
 
     try:
         dctx = DfaCompileCtx(pctx)
